@@ -8,7 +8,7 @@ PROPS = ('C18',)
 RACE_PROBES = ('equal_sources_many_objects', 'gauge_a_b_a', 'reservoir_overflow', 'interleaved_writers',
                'series_older_than_max_agg_age_still_recorded',
                'aggregate_while_writing', 'metric_first_seen_during_aggregate',
-               'two_blocks_same_attribute_same_source')
+               'two_blocks_same_attribute_same_source', 'recorded_through_class_metric')
 SHRINK_KEYS = ('ops',)
 
 
@@ -41,16 +41,20 @@ def generate(rng, tier='quick', **kw):
     if k < 0.04:
       ops.append({'g': 3, 'op': 'agg'})                     # a reader aggregates while the writers run
     elif k < 0.3:
-      ops.append({'g': g, 'op': 'count', 'obj': o, 'amt': rng.choice([1, 1, 1, 2, 5]),
+      ops.append({'g': g, 'op': 'count', 'obj': o, 'amt': rng.choice([1, 1, 1, 2, 5, 0]),
                   'name': rng.choice(['count', 'count', 'count2', 'count3'])})
     elif k < 0.45:
       ops.append({'g': g, 'op': 'rate', 'obj': o})
     elif k < 0.7:
       ops.append({'g': g, 'op': 'gauge', 'obj': o, 'val': rng.choice([0, 1, 2, 3, 5, 7])})
     elif k < 0.95:
-      ops.append({'g': g, 'op': 'sample', 'obj': o, 'val': round(rng.choice([0.001, 0.01, 0.5]) * rng.random(), 6)})
+      ops.append({'g': g, 'op': 'sample', 'obj': o, 'val': round(rng.choice([0.001, 0.01, 0.5, 0.0]) * rng.random(), 6)})
     else:
       ops.append({'g': g, 'op': 'fresh', 'obj': o})        # re-create object o (new Source, new Varz)
+    if rng.random() < 0.2:
+      # through the metric of the Varz *class*, naming the source in the call
+      # (the form the dispatcher uses), instead of a source-bound object
+      ops[-1]['unbound'] = True
   return {'world': 'w_varz', 'sources': sources, 'objs': objs, 'ops': ops, 'cls': cls}
 
 
@@ -90,6 +94,17 @@ def run(scn):
   def key(k):
     d = srcs[scn['objs'][k]]
     return (d['method'], d['service'], d['endpoint'], d['client_id'])
+
+  def target(k, op, name):
+    """The callable to record through: the object's source-bound metric, or the
+    class's metric with a freshly built equal Source as first argument."""
+    if not op.get('unbound'):
+      return getattr(objs[k], name)
+    d = srcs[scn['objs'][k]]
+    src = Source(method=d['method'], service=d['service'], endpoint=d['endpoint'], client_id=d['client_id'])
+    metric = getattr(V2 if cls_of[k] else V, name)
+    REC.probe('recorded_through_class_metric')
+    return lambda *a: metric(src, *a)
   model = {'count': {}, 'count2': {}, 'count3': {}, 'rate': {}, 'gauge': {}, 'lat': {},
            '2:count': {}, '2:count2': {}, '2:count3': {}, '2:rate': {}, '2:gauge': {}, '2:lat': {}}
   COUNTERS = ('count', 'count2', 'count3', 'rate', '2:count', '2:count2', '2:count3', '2:rate')
@@ -147,21 +162,21 @@ def run(scn):
       o = objs[k]
       if op['op'] == 'count':
         nm = op.get('name', 'count')
-        getattr(o, nm)(op['amt'])
+        target(k, op, nm)(op['amt'])
         nm = mname(k, nm)
         model[nm][kk] = model[nm].get(kk, 0) + op['amt']
       elif op['op'] == 'rate':
-        o.rate()
+        target(k, op, 'rate')()
         model[mname(k, 'rate')][kk] = model[mname(k, 'rate')].get(kk, 0) + 1
       elif op['op'] == 'gauge':
-        o.gauge(op['val'])
+        target(k, op, 'gauge')(op['val'])
         h = hist.setdefault((cls_of[k], kk), [])
         h.append((k, op['val']))
         if len(h) >= 3 and h[-1] == h[-3] and h[-2][0] != k and h[-2][1] != op['val']:
           REC.probe('gauge_a_b_a')
         model[mname(k, 'gauge')][kk] = op['val']
       elif op['op'] == 'sample':
-        o.lat(op['val'])
+        target(k, op, 'lat')(op['val'])
         model[mname(k, 'lat')].setdefault(kk, []).append(op['val'])
       else:
         objs[k] = mk(k)
